@@ -75,12 +75,12 @@ def calls(sig):
             opt = [n for n in rest if NAMES.index(n) >= p - k]
             for r in range(len(opt) + 1):
                 for chosen in itertools.combinations(opt, r):
-                    for zz in ([0, 1] if sig['vk'] else [0]):
+                    for zz in ([None, 'zz', 'args', 'kwargs'] if sig['vk'] else [None]):
                         names = req + list(chosen)
                         for order in ([names, names[::-1]] if len(names) > 1 else [names]):
                             kw = {n: TOK[n] for n in order}
                             if zz:
-                                kw['zz'] = 'Z'
+                                kw[zz] = 'Z'          # an undeclared keyword; 'args' / 'kwargs' are spelt like the star parameters themselves
                             try:
                                 s.bind(*args, **kw)
                             except TypeError:
@@ -210,8 +210,9 @@ def check_program(case):
                 out.viol('wrapped-call-raised', '%s raised %s: %s (f returns %r)' % (clab, type(e).__name__, e, want), exc=type(e).__name__, outer=names[-1], n=len(st), first_passed=bool(args) or ('a' in kw))
                 continue
             if got != want:
-                if has_ks and sig['vk'] and 'zz' in kw and got == f(*args, **{k_: v for k_, v in kw.items() if k_ != 'zz'}):
-                    out.viol('kwargs_support-drops-varkw', '%s returned %r: the undeclared keyword zz was dropped although f has **kwargs (f returns %r)' % (clab, got, want),
+                und = [k_ for k_ in kw if k_ not in NAMES[:sig['p']]]
+                if has_ks and sig['vk'] and und and got == f(*args, **{k_: v for k_, v in kw.items() if k_ not in und}):
+                    out.viol('kwargs_support-drops-varkw', '%s returned %r: the undeclared keyword was dropped although f has **kwargs (f returns %r)' % (clab, got, want),
                              decorator='kwargs_support')
                 else:
                     out.viol('not-transparent', '%s returned %r, f returns %r' % (clab, got, want), outer=names[-1], n=len(st))
@@ -225,7 +226,7 @@ def check_program(case):
                     continue
                 # make exactly one argument 'boom'
                 for pos in range(len(vals)):
-                    if dname == 'kwargs_support' and pos >= len(args) and list(kw)[pos - len(args)] == 'zz':
+                    if dname == 'kwargs_support' and pos >= len(args) and list(kw)[pos - len(args)] not in NAMES:
                         continue        # an undeclared keyword never reaches f under kwargs_support (reported separately as kwargs_support-drops-varkw)
                     a2 = tuple('boom' if i == pos else v for i, v in enumerate(args))
                     k2 = {k_: ('boom' if len(args) + i == pos else v) for i, (k_, v) in enumerate(kw.items())}
